@@ -183,6 +183,21 @@ class Dim:
             if c.endswith("Option::<T>::unwrap_or") and len(e[2]) == 2:
                 # Some(x) => x, None => the default: the join of both
                 return join(self.dim(fn, e[2][0], depth=depth + 1, _vis=_vis), self.dim(fn, e[2][1], depth=depth + 1, _vis=_vis)) or "U"
+            if c.endswith("Option::<T>::map_or") and len(e[2]) == 3:
+                # `iter.nth(i).map_or(default, |(j, _)| j)`: the default, or the component of the item the closure hands back
+                dd = self.dim(fn, e[2][1], depth=depth + 1, _vis=_vis)
+                cn = [y[1][1] for y in expr_walk(e[2][2]) if y[0] == "agg" and isinstance(y[1], tuple) and y[1] and y[1][0] == "closure"]
+                dc = "U"
+                if cn and cn[0] in self.prog.fns:
+                    cf = self.prog.fns[cn[0]]
+                    r = cf.local_expr(0, 8)
+                    while r[0] in ("ref", "deref", "cast"):
+                        r = r[3] if r[0] == "cast" else r[1]
+                    if r[0] == "field" and str(r[2]).isdigit() and r[1][0] == "arg" and r[1][1] == 2:
+                        dc = self._iter_item_dim(fn, ("field", e[2][0], r[2])) or "U"
+                        if dc == "C" and r[2] == "0" and self._has_char_indices(fn, e) and "Enumerate" not in str(e):
+                            dc = "B"
+                return join(dd, dc) or "U"
             if c.endswith("::min") or c.endswith("::max"):
                 d = None
                 for a in e[2]:
